@@ -96,6 +96,13 @@ def w(o):
             return sp.nan
         if o == int(o) and abs(o) < 1e15:
             return sp.Integer(int(o))
+        # a float literal such as 4 / 3 or 0.4 stands for the real number the programmer wrote: take the simplest
+        # rational within one ulp (floats are modelled as reals; stated in the trusted base)
+        import fractions
+        for lim in (1000, 10 ** 6):
+            fr = fractions.Fraction(o).limit_denominator(lim)
+            if abs(float(fr) - o) <= 2e-16 * max(1.0, abs(o)):
+                return sp.Rational(fr.numerator, fr.denominator)
         return sp.Rational(repr(o))
     if isinstance(o, _np.ndarray) and o.ndim == 0:
         return w(o.item())
